@@ -1,5 +1,6 @@
 ---- MODULE PruneMech_MC ----
 EXTENDS PruneMech
 MCHeightsSmall == 1..6
+MCHeightsSmall12 == 1..12
 MCHeightsBands == {1, 2, 3, 500001, 500002, 500003, 1000001, 1000002, 1500003, 1500004, 2000001, 2000002}
 ====
